@@ -164,7 +164,6 @@ fn inv_mod(a: u128, m: u128) -> u128 {
 struct Builder<'a> {
     p: u128,
     q: u128,
-    n: u128,
     small: &'a [u32],
 }
 
@@ -207,9 +206,8 @@ impl Builder<'_> {
         let pinv = inv_mod(self.p % self.q, self.q);
         let diff = (sq + self.q - sp % self.q) % self.q;
         let t = mulmod(diff, pinv, self.q);
+        // 0 <= x < p*q by construction
         let x = Uint::from(sp) + Uint::from(self.p) * Uint::from(t);
-        let x = x % Uint::from(self.n);
-        let _ = self.small;
         let mut factors: Vec<(i64, u64)> = vec![];
         if neg {
             factors.push((-1, 1));
@@ -265,7 +263,13 @@ impl Builder<'_> {
 pub fn gen_spec(rng: &mut Rng, tier: Tier) -> Spec {
     let half_bits = match tier {
         Tier::Quick => rng.range(20, 50) as u32,
-        Tier::Thorough => rng.range(20, 63) as u32,
+        Tier::Thorough => {
+            if rng.chance(0.3) {
+                rng.range(64, 100) as u32
+            } else {
+                rng.range(20, 63) as u32
+            }
+        }
     };
     let gp = |rng: &mut Rng, b: u32| loop {
         let p = gen_prime(rng, b);
@@ -284,34 +288,34 @@ pub fn gen_spec(rng: &mut Rng, tier: Tier) -> Spec {
         }
     };
     if std::env::var("VERIF_TRACE").is_ok() { eprintln!("gen: q={q}"); }
-    let n128 = p * q;
-    let n = Uint::from(n128);
+    let n = Uint::from(p) * Uint::from(q);
     let fb_size = rng.range(16, 48) as u32;
     let fbase = FBase::new(Int::cast_from(n), fb_size);
     // a few factor base primes for the smooth parts (so that cycles outnumber primes)
     let nsmall = rng.range(4, 14.min(fbase.len() as u64)) as usize;
-    let mut small: Vec<u32> = (0..fbase.len()).map(|i| fbase.p(i)).filter(|&pr| (n128 % pr as u128) != 0).collect();
+    let mut small: Vec<u32> = (0..fbase.len()).map(|i| fbase.p(i)).filter(|&pr| p % pr as u128 != 0 && q % pr as u128 != 0).collect();
     small.truncate(nsmall.max(2));
     if std::env::var("VERIF_TRACE").is_ok() { eprintln!("gen: p={p} q={q} fb={} bound={} small={small:?}", fbase.len(), fbase.bound()); }
-    let b = Builder { p, q, n: n128, small: &small };
+    let b = Builder { p, q, small: &small };
     // large primes: a small pool above the factor base, so that collisions are frequent
-    let maxlarge: u64 = 1 << 22;
+    // large primes range up to 32 bits in real sieves (packed as ULEB128: 3 to 5 bytes)
+    let (maxlarge, lmax_bits): (u64, u64) = *rng.pick(&[(1u64 << 22, 21u64), (1 << 22, 21), (1 << 27, 26), ((1 << 32) - 1, 31)]);
     let npool = rng.range(3, 14) as usize;
     let mut pool: Vec<u64> = vec![];
     while pool.len() < npool {
-        let lb = rng.range(17, 21) as u32;
+        let lb = rng.range(17, lmax_bits) as u32;
         let l = gen_prime(rng, lb) as u64;
         // as in a real sieve, n must be a square modulo every large prime: (l|p) = (l|q)
         let same = legendre(l as u128, p) == legendre(l as u128, q);
-        if same && !pool.contains(&l) && l > fbase.bound() as u64 && n128 % l as u128 != 0 && l < maxlarge {
+        if same && !pool.contains(&l) && l > fbase.bound() as u64 && p != l as u128 && q != l as u128 && l < maxlarge {
             pool.push(l);
         }
     }
+    if std::env::var("VERIF_TRACE").is_ok() { eprintln!("gen: pool={pool:?} maxlarge={maxlarge}"); }
     let total_ops = match tier {
         Tier::Quick => rng.range(20, 160),
         Tier::Thorough => rng.range(20, 400),
     } as usize;
-    if std::env::var("VERIF_TRACE").is_ok() { eprintln!("gen: pool={pool:?} total_ops={total_ops}"); }
     let shape_id = rng.weighted(&[3, 2, 2, 2, 2]);
     let shape = ["mixed", "chain", "star", "cycle_heavy", "doubles_first"][shape_id];
     let mut ops: Vec<Op> = vec![];
@@ -677,7 +681,7 @@ impl Family for RelstoreFamily {
     fn count(&self, _prop: &str, tier: Tier) -> u64 {
         match tier {
             Tier::Quick => 30000,
-            Tier::Thorough => 300000,
+            Tier::Thorough => 100000,
         }
     }
 
